@@ -3,12 +3,15 @@ package main
 // C07 / C08: synthetic issuers, properly issued credentials, and single faults injected into valid proof bundles.
 
 import (
+	"bytes"
 	"context"
 	"encoding/hex"
 	"encoding/json"
 	"errors"
 	"fmt"
+	"io"
 	"math/big"
+	"net/http"
 	"strings"
 	"time"
 
@@ -570,8 +573,12 @@ func emitBJJ(out *Out, r *Rng, f bjjFault, later bool) {
 	calls := 0
 	c := Case{Op: "verify.bjj", In: J{"fault": f.name}, Tags: []string{"fault:" + f.name, fmt.Sprintf("later:%v", s.later)}, NT: true}
 	setCurrent(out, &c)
-	err := runVerify(s.vc, verifiable.BJJSignatureProofType, x.res.resolver(&calls), reg, s.c.loader())
+	var askedDirect []string
+	err := runVerify(s.vc, verifiable.BJJSignatureProofType, recResolver{x.res.resolver(&calls), &askedDirect}, reg, s.c.loader())
 	impl := classify(err)
+	if r.Chance(30) {
+		emitBJJOverHTTP(out, r, s, x, reg, f, err == nil, askedDirect)
+	}
 	// ----- the bundle as numbers + oracle bits (computed from the faulty proof with third-party code only)
 	var auth core.Claim
 	authOk := auth.FromHex(p.IssuerData.AuthCoreClaim) == nil
@@ -705,3 +712,93 @@ func genC07(out *Out, r *Rng, tier string, n int, shard int) {
 func init() { gens["C07"] = genC07 }
 
 func parseDID(s string) (*w3c.DID, error) { return w3c.ParseDID(s) }
+
+// ---------- the library's HTTP DID resolver in front of the same answers ----------
+
+type recResolver struct {
+	inner verifiable.DIDResolver
+	asked *[]string
+}
+
+func (r recResolver) Resolve(ctx context.Context, did *w3c.DID) (verifiable.DIDDocument, error) {
+	*r.asked = append(*r.asked, did.String())
+	return r.inner.Resolve(ctx, did)
+}
+
+// didGateway: a universal-resolver style endpoint (GET <base>/<escaped DID>?<query>) that answers from a resolver,
+// with transient failures: the next failNext requests get a 5xx (or another) status and a body that is no resolution result
+type didGateway struct {
+	inner    verifiable.DIDResolver
+	failNext int
+	failCode int
+	asked    []string
+}
+
+func (g *didGateway) RoundTrip(req *http.Request) (*http.Response, error) {
+	mk := func(code int, body []byte) (*http.Response, error) {
+		return &http.Response{StatusCode: code, Status: fmt.Sprint(code), Body: io.NopCloser(bytes.NewReader(body)), Header: http.Header{"Content-Type": {"application/json"}},
+			ContentLength: int64(len(body)), Request: req, Proto: "HTTP/1.1", ProtoMajor: 1, ProtoMinor: 1}, nil
+	}
+	didURL := strings.TrimPrefix(req.URL.Path, "/")
+	if req.URL.RawQuery != "" {
+		didURL += "?" + req.URL.RawQuery
+	}
+	g.asked = append(g.asked, didURL)
+	if g.failNext > 0 {
+		g.failNext--
+		return mk(g.failCode, []byte("upstream unavailable"))
+	}
+	did, err := w3c.ParseDID(didURL)
+	if err != nil {
+		return mk(400, []byte(`{"error": "invalidDid"}`))
+	}
+	doc, err := g.inner.Resolve(req.Context(), did)
+	if err != nil {
+		return nil, errors.New("gateway: resolver unavailable")
+	}
+	body, _ := json.Marshal(J{"didDocument": doc})
+	return mk(200, body)
+}
+
+// the same verification with verifiable.HTTPDIDResolver between the verifier and the answers: the verdict is the same, the
+// questions asked are the same (DID and state), and while the endpoint fails for a moment nothing is accepted that is not
+// accepted otherwise and nothing else is asked.
+func emitBJJOverHTTP(out *Out, r *Rng, s *verifySetup, x *bjjCtx, reg *verifiable.CredentialStatusResolverRegistry, f bjjFault, acceptedDirect bool, askedDirect []string) {
+	c0 := 0
+	gw := &didGateway{inner: x.res.resolver(&c0)}
+	if r.Chance(50) {
+		gw.failNext, gw.failCode = 1+r.Intn(2), []int{500, 502, 503, 504, 429, 404}[r.Intn(6)]
+	}
+	transient := gw.failNext > 0
+	old := http.DefaultTransport
+	http.DefaultTransport = gw
+	err := runVerify(s.vc, verifiable.BJJSignatureProofType, verifiable.HTTPDIDResolver{}, reg, s.c.loader())
+	http.DefaultTransport = old
+	var why []string
+	direct := map[string]bool{}
+	for _, a := range askedDirect {
+		direct[a] = true
+	}
+	for _, a := range gw.asked {
+		if !direct[a] {
+			why = append(why, fmt.Sprintf("the HTTP resolver asks the endpoint about %q; the verifier asked about %v", a, askedDirect))
+			break
+		}
+	}
+	if err == nil && !acceptedDirect {
+		why = append(why, fmt.Sprintf("verification through the HTTP resolver succeeds although the bundle carries the fault %q (rejected with the same answers given directly)", f.name))
+	}
+	if !transient {
+		if (err == nil) != acceptedDirect {
+			why = append(why, fmt.Sprintf("verdict through the HTTP resolver (%v) differs from the verdict with the same answers given directly (accepted=%v)", err, acceptedDirect))
+		}
+		if fmt.Sprint(gw.asked) != fmt.Sprint(askedDirect) {
+			why = append(why, fmt.Sprintf("questions through the HTTP resolver %v, directly %v", gw.asked, askedDirect))
+		}
+	}
+	if errClass(err) == "panic" || errClass(err) == "hang" {
+		why = append(why, "verifier "+errClass(err)+": "+err.Error())
+	}
+	out.Emit(Case{Op: "none", In: J{"fault": f.name, "asked": fmt.Sprint(gw.asked), "failNext": transient}, Impl: classify(err), Prop: propOf(why),
+		Tags: []string{"fault:" + f.name, "over-http-resolver", fmt.Sprintf("transient:%v", transient)}, NT: true})
+}
